@@ -140,6 +140,17 @@ pub fn gen(tier: &str, rng: &mut Rng, out: &mut Vec<String>) {
             }
         }
     }
+    // the same literals as the NUMBER OF ITEMS of a caller-supplied initial main / alt stack (the interpreter pre-sizes its stacks)
+    {
+        let vals = crate::harvest::ints(&["script/interpreter.rs", "script/stack.rs", "script/mod.rs"], 1200);
+        for v in vals.iter() {
+            let n = *v as usize; if n == 0 || n > 1200 { continue; }
+            let st = vec!["01"; n].join(",");
+            out.push(eval_req("c07", &[0x74], 0, None, None, &st, "~", "t:t:t"));          // OP_DEPTH
+            out.push(eval_req("c07", &[0x6c], 1, None, None, "~", &st, "t:t:t"));          // OP_FROMALTSTACK
+            if n <= 300 { out.push(eval_req("c07", &[0x51], 0, None, None, &st, &st, "t:t:t")); }
+        }
+    }
     // all start/break offsets in [0, len+1] for short scripts
     let m = if thorough { 400 } else { 60 };
     for _ in 0..m {
